@@ -9,7 +9,8 @@ Open Scope N_scope.
 
 Inductive ttype :=
 | TTInt | TTLong | TTDouble | TTString | TTBytes | TTBool | TTTrue | TTInt128 | TTInt256
-| TTVector (e : ttype)
+| TTVector (e : ttype)        (* Vector<T>: boxed vector (id, count, elements) *)
+| TTBareVector (e : ttype)    (* vector<T>: bare vector (count, elements; no id) - mtproto.tl only *)
 | TTBareCtor (name : bytes)   (* %Type: bare constructor *)
 | TTVar                       (* !X : the generic argument *)
 | TTObject                    (* Object (mtproto.tl): any boxed object *)
@@ -78,8 +79,10 @@ Fixpoint parse_ttype (fuel : nat) (s : bytes) : ttype :=
     else if beq s (lit "int256") then TTInt256
     else if beq s (lit "Object") then TTObject
     else if beq s (lit "!X") then TTVar
-    else if (has_prefix s_vector_lt s || has_prefix s_vector_lc s) && last_is 62 s
+    else if has_prefix s_vector_lt s && last_is 62 s
          then TTVector (parse_ttype f (drop_last (skipn 7 s)))
+    else if has_prefix s_vector_lc s && last_is 62 s
+         then TTBareVector (parse_ttype f (drop_last (skipn 7 s)))
     else match s with
          | 37 :: r => TTBareCtor r
          | _ => TTNamed s
